@@ -221,7 +221,8 @@ class XPathToken(Token[ta.XPathTokenType]):
             else:
                 yield item
 
-    def select_with_focus(self, context: XPathContext) -> Iterator[ta.ItemType]:
+    def select_with_focus(self, context: XPathContext, forward: bool = True) \
+            -> Iterator[ta.ItemType]:
         """Select item with an inner focus on dynamic context."""
         status = context.item, context.size, context.position, context.axis
         try:
